@@ -25,6 +25,8 @@
 #include <algorithm>
 #include <array>
 #include <csetjmp>
+#include <fcntl.h>
+#include <fnmatch.h>
 #include <csignal>
 #include <ctime>
 #include <memory>
@@ -847,7 +849,7 @@ std::vector<viol_t> judge(const obs_t& o, const truth_t& t)
         }
         if (!xfinite || !std::isfinite(o.fx))
         {
-            v.push_back({"non-finite-result-without-failed-status", jobj({{"fx", jnum(o.fx)}, {"x_finite", xfinite ? "true" : "false"}, {"status", jint(o.status)}})});
+            v.push_back({std::string("non-finite-result-with-status-") + (o.status == 1 ? "converged" : "max_iters"), jobj({{"fx", jnum(o.fx)}, {"x_finite", xfinite ? "true" : "false"}, {"status", jint(o.status)}})});
         }
         else if (t.in_class && std::fabs(t.f0) < 1e8 && t.g0inf < 1e8)
         {
@@ -1019,7 +1021,17 @@ exec_t run_and_judge(const world_t& w, const setup_t& su, mc::chooser_t* ch)
     t.in_class            = documented && !su.faults; // a poisoned function is outside every documented class
     t.budget_clause       = !su.faults && !su.variant.lsearch_setting;
 
-    e.violations       = judge(o, t);
+    e.violations = judge(o, t);
+    if (std::getenv("C02_TRACE") != nullptr)
+    {
+        std::fprintf(stderr, "TRACE status=%d fx=%.17g counted=%llu|%llu reported=%lld|%lld segments=", o.status, o.fx, static_cast<unsigned long long>(o.counted_calls),
+                     static_cast<unsigned long long>(o.counted_gcalls), static_cast<long long>(o.fcalls), static_cast<long long>(o.gcalls));
+        for (const auto& sg : o.segments)
+        {
+            std::fprintf(stderr, "%llu/%d ", static_cast<unsigned long long>(sg.evals), sg.inners);
+        }
+        std::fprintf(stderr, "\n");
+    }
     e.status           = o.status;
     e.evals            = probe.evals();
     e.exhausted        = probe.evals() >= static_cast<uint64_t>(t.max_evals);
@@ -1119,6 +1131,18 @@ exec_t run_in_child(const world_t& w, const setup_t& su, const std::vector<int>&
         g_timeout = 0;
         signal(SIGVTALRM, SIG_DFL);
         signal(SIGALRM, SIG_DFL);
+        for (const int sig : {SIGSEGV, SIGFPE, SIGABRT, SIGBUS})
+        {
+            signal(sig, SIG_DFL);
+        }
+        {
+            // keep glibc's "free(): invalid size" chatter of a crashing child out of the shard log
+            const int devnull = open("/dev/null", O_WRONLY);
+            if (devnull >= 0 && std::getenv("C02_TRACE") == nullptr)
+            {
+                dup2(devnull, 2);
+            }
+        }
         rlimit rl{};
         rl.rlim_cur = static_cast<rlim_t>(cpu_limit);
         rl.rlim_max = static_cast<rlim_t>(cpu_limit) + 5;
@@ -1175,7 +1199,13 @@ exec_t run_in_child(const world_t& w, const setup_t& su, const std::vector<int>&
         }
         else
         {
-            e.violations.push_back({"crash", jobj({{"wait_status", jint(st)}})});
+            // the recorded heap overflow of bundle_t at bundle::max_size = 2 has a key of its own; any other crash keeps the generic key
+            const auto& vn         = su.variant.name;
+            const bool  bundle_min = su.variant.kind == 2 && su.variant.i1 == 2 && vn.size() >= 16 && vn.compare(vn.size() - 16, 16, "bundle::max_size") == 0;
+            e.violations.push_back({bundle_min        ? std::string("crash:bundle-max_size=2")
+                                    : WIFSIGNALED(st) ? "crash(signal " + std::to_string(WTERMSIG(st)) + ")"
+                                                      : std::string("crash"),
+                                    jobj({{"wait_status", jint(st)}, {"signal", jint(WIFSIGNALED(st) ? WTERMSIG(st) : 0)}})});
         }
     }
     return e;
@@ -1183,6 +1213,10 @@ exec_t run_in_child(const world_t& w, const setup_t& su, const std::vector<int>&
 
 exec_t guarded(const world_t& w, const setup_t& su, mc::chooser_t* ch, guard_t& guard)
 {
+    if (std::getenv("C02_TRACE") != nullptr)
+    {
+        std::fprintf(stderr, "TRACE %s\n", describe(w, su).c_str());
+    }
     exec_t        e;
     volatile bool timed_out = false;
     const double  limit     = guard.limit();
@@ -1234,6 +1268,27 @@ exec_t guarded(const world_t& w, const setup_t& su, mc::chooser_t* ch, guard_t& 
     return e;
 }
 
+/// mutant evaluation only: C02_SUPPRESS="pattern;pattern" turns the violation keys it matches (fnmatch) into outcomes
+/// "suppressed:<key>", so that a seeded change can be judged against a tree whose recorded defects still fire
+bool suppressed(const std::string& key)
+{
+    const char* env = std::getenv("C02_SUPPRESS");
+    if (env == nullptr)
+    {
+        return false;
+    }
+    std::istringstream in(env);
+    std::string        pat;
+    while (std::getline(in, pat, ';'))
+    {
+        if (!pat.empty() && fnmatch(pat.c_str(), key.c_str(), 0) == 0)
+        {
+            return true;
+        }
+    }
+    return false;
+}
+
 std::string vec_str(const std::vector<int>& h)
 {
     std::string s;
@@ -1268,16 +1323,18 @@ bool on_diagonal(const tensor_size_t n, const int ix0, const int ieps, const int
 
 std::vector<std::array<int, 3>> triples(const tensor_size_t n, const bool full, const int full_max_ime)
 {
+    // order: max_evals (slowest), x0, epsilon: the expensive budgets form runs of consecutive case numbers, which the
+    // round-robin sharding spreads evenly
     std::vector<std::array<int, 3>> out;
-    for (int ix0 = 0; ix0 < 9; ++ix0)
+    for (int ime = 0; ime < 4; ++ime)
     {
-        if (n == 1 && ix0 % 3 != 0)
+        for (int ix0 = 0; ix0 < 9; ++ix0)
         {
-            continue; // ones == alternating == e1 in one dimension
-        }
-        for (int ieps = 0; ieps < 2; ++ieps)
-        {
-            for (int ime = 0; ime < 4; ++ime)
+            if (n == 1 && ix0 % 3 != 0)
+            {
+                continue; // ones == alternating == e1 in one dimension
+            }
+            for (int ieps = 0; ieps < 2; ++ieps)
             {
                 if ((full && ime <= full_max_ime) || on_diagonal(n, ix0, ieps, ime))
                 {
@@ -1340,7 +1397,7 @@ int self_test()
     const bool ok = rejects(o1, t, "fx-differs-from-f(x)") && rejects(o2, t, "gx-differs-from-grad-f(x)") &&
                     rejects(o3, t, "reported-fcalls-exceed-performed") && rejects(o4, t, "reported-gcalls-exceed-performed") &&
                     rejects(o5, t, "status-not-in-{converged,max_iters,failed}") &&
-                    rejects(o6, t6, "non-finite-result-without-failed-status") && rejects(o, t7, "value-larger-than-start") &&
+                    rejects(o6, t6, "non-finite-result-with-status-converged") && rejects(o, t7, "value-larger-than-start") &&
                     rejects(o8, t, "budget-overshoot") && rejects(o9, t, "dimension") &&
                     rejects(o10, t10, "budget-overshoot-per-inner-solve");
     return ok ? 0 : 2;
@@ -1403,6 +1460,11 @@ int main(int argc, char** argv)
             auto detail = describe(w, su);
             detail.pop_back();
             detail += "," + jstr("observed") + ":" + v.detail + extra + "}";
+            if (suppressed(s.id + ":" + v.clause))
+            {
+                r.outcome("suppressed:" + s.id + ":" + v.clause);
+                continue;
+            }
             r.violation(s.id + ":" + v.clause, handle, detail);
         }
     };
@@ -1413,7 +1475,7 @@ int main(int argc, char** argv)
         // explicit case list (the thinned product), simplest first: function (by dimension), solver, triple
         std::vector<setup_t> cases;
         const auto           full_dims = static_cast<tensor_size_t>(args.geti("full-dims", 2));
-        const auto           cheap_me  = static_cast<int>(args.geti("full-max-ime", 3));
+        const auto           semi_dims = static_cast<tensor_size_t>(args.geti("semi-dims", full_dims));
         if (!params)
         {
             for (size_t fi = 0; fi < w.functions.size(); ++fi)
@@ -1421,7 +1483,7 @@ int main(int argc, char** argv)
                 const auto n = w.functions[fi].f->size();
                 for (size_t si = 0; si < w.solvers.size(); ++si)
                 {
-                    for (const auto& tr : triples(n, n <= full_dims, cheap_me))
+                    for (const auto& tr : triples(n, n <= semi_dims, n <= full_dims ? 3 : 2))
                     {
                         setup_t su;
                         su.solver = static_cast<int>(si), su.func = static_cast<int>(fi);
@@ -1466,7 +1528,7 @@ int main(int argc, char** argv)
         }
 
         lattice_t lat;
-        lat.axis("case", cases.size(), jstr("index into the thinned product below (deterministic order: function by dimension, solver, x0, epsilon, max_evals)"));
+        lat.axis("case", cases.size(), jstr("index into the thinned product below (deterministic order: function by dimension, solver, max_evals, x0, epsilon)"));
         lat.describe(r);
         r.axis("solvers", jarr_str(solver_ids));
         r.axis("functions", jarr_str(function_names));
@@ -1475,9 +1537,10 @@ int main(int argc, char** argv)
         r.axis("max_evals", jarr_num(std::vector<double>(MAX_EVALS, MAX_EVALS + 4)));
         if (!params)
         {
-            r.axis("thinning", jstr("functions with n <= " + std::to_string(full_dims) + ": all x0 x epsilon x max_evals with max_evals <= " +
-                                    std::to_string(MAX_EVALS[cheap_me]) + " plus the diagonal; n larger: the diagonal only = every x0 once with epsilon index = ix0 mod 2 and "
-                                    "max_evals index = (ix0 + 2*(ix0 div 3)) mod 4 (n = 1: the three radii with (1e-4,100), (1e-8,5000), (1e-4,10)); every solver x every function is always run"));
+            r.axis("thinning", jstr("functions with n <= " + std::to_string(full_dims) + ": all x0 x epsilon x max_evals; " + std::to_string(full_dims) + " < n <= " +
+                                    std::to_string(semi_dims) + ": all x0 x epsilon x max_evals <= 1000 plus the diagonal; n larger: the diagonal only = every x0 once with "
+                                    "epsilon index = ix0 mod 2 and max_evals index = (ix0 + 2*(ix0 div 3)) mod 4 (n = 1: the three radii with (1e-4,100), (1e-8,5000), "
+                                    "(1e-4,10)); every solver x every function is always run"));
         }
         else
         {
@@ -1493,7 +1556,9 @@ int main(int argc, char** argv)
                           const auto& su = cases[index];
                           std::snprintf(g_case_tag, sizeof(g_case_tag), "%s:%llu", tag.c_str(), static_cast<unsigned long long>(index));
                           const double t0 = cpu_now();
-                          const auto   e  = guarded(w, su, nullptr, guard);
+                          // parameter ends can break memory safety: every case of stage "params" runs alone in a forked child
+                          // (10x the watchdog limit straight away), so that a crash is one keyed violation and the stage goes on
+                          const auto e = params ? run_in_child(w, su, {}, 10.0 * guard.limit()) : guarded(w, su, nullptr, guard);
                           cpu_by_family[w.solvers[static_cast<size_t>(su.solver)].family] += cpu_now() - t0;
                           record(su, e, tag + ":" + std::to_string(index), "");
                           if (index % 4099 == 0)
@@ -1561,6 +1626,11 @@ int main(int argc, char** argv)
                     }
                     for (const auto& v : e.violations)
                     {
+                        if (suppressed("faults:" + s.id + ":" + v.clause))
+                        {
+                            r.outcome("suppressed:faults:" + s.id + ":" + v.clause);
+                            continue;
+                        }
                         auto detail = describe(w, su);
                         detail.pop_back();
                         detail += "," + jstr("observed") + ":" + v.detail + "," + jstr("fault_choices(0 honest,1 NaN,2 +inf,3 1e300 per new point)") + ":" +
